@@ -57,9 +57,11 @@ def run(ctx):
         with open(path, "wb") as f:
             f.write(data)
 
-    def encrypt(d, data, pw_args, name="in.bin"):
+    def encrypt(d, data, pw_args, name="in.bin", prior=None):
         src = os.path.join(d, name)
         write(src, data)
+        if prior is not None:
+            write(os.path.join(d, "enc.ascon"), prior)
         rc, o, e = tool([crypt, "-e"] + pw_args + ["-o", os.path.join(d, "enc.ascon"), src])
         return rc, os.path.join(d, "enc.ascon"), e
 
@@ -72,7 +74,8 @@ def run(ctx):
         sizes = [0, 1, 15, 16, 17, B - 17, B - 16, B - 15, B - 1, B, B + 1, 2 * B - 17, 2 * B - 16, 2 * B - 15, 2 * B - 1, 2 * B, 2 * B + 1, 3 * B]
 
     def roundtrip(job):
-        n, pwkind, pat = job
+        n, pwkind, pat = job[:3]
+        prior = job[3] if len(job) > 3 else None     # an output file of that name already exists: longer or shorter than what is about to be written
         d = wd()
         data = content(n, pat)
         if pwkind == "short":
@@ -83,8 +86,9 @@ def run(ctx):
             kf = os.path.join(d, "key.txt")
             write(kf, b"k3y-file-secret\n")
             pa = ["-k", kf]
-        rc, enc, e = encrypt(d, data, pa)
-        key = "asconcrypt:roundtrip:%s" % pwkind
+        junk = lambda k: bytes((i * 29 + 3) & 0xff for i in range(k))
+        rc, enc, e = encrypt(d, data, pa, prior=None if prior is None else junk(n + 96 + 50 if prior == "longer" else max(0, n + 96 - 7)))
+        key = "asconcrypt:roundtrip:%s" % pwkind + (":existing-output-" + prior if prior else "")
         if rc != 0 or not os.path.isfile(enc):
             ctx.fail(key, "encryption of a %d-byte file exits %d: %s" % (n, rc, e[-200:]), rep([crypt, "-e"] + pa))
             return
@@ -92,6 +96,8 @@ def run(ctx):
         if encsize != n + 96:
             ctx.fail(key, "encrypted size %d for %d input bytes (expected +96)" % (encsize, n))
         out = os.path.join(d, "out.bin")
+        if prior:
+            write(out, junk(n + 33 if prior == "longer" else n // 2))
         rc, o, e = tool([crypt, "-d"] + pa + ["-o", out, enc])
         if rc != 0 or not os.path.isfile(out) or open(out, "rb").read() != data:
             ctx.fail(key, "decryption of a %d-byte file does not reproduce it (exit %d): %s" % (n, rc, e[-200:]), rep([crypt, "-d"] + pa))
@@ -104,6 +110,7 @@ def run(ctx):
         shutil.rmtree(d, ignore_errors=True)
 
     jobs = [(n, pk, pat) for n in sizes for pk in ("short", "long", "keyfile") for pat in ((0, 1) if thorough or n < 100 else (1,))]
+    jobs += [(n, "short", 1, prior) for n in sizes for prior in ("longer", "shorter")]
     common.parallel(roundtrip, jobs)
 
     # ---------------- tampering: bit flips and truncation at every position
